@@ -10,7 +10,7 @@ mkdir -p /verif/seeded/$TAG && cp SEED/patch.diff SEED/meta.json SEED/*_test.go 
 S=/verif/seeded/$TAG
 DEMO=$(python3 -c "import json;print(json.load(open('$S/meta.json'))['demo_test'])")
 DEMOFILE=$(ls $S/*_test.go | head -1)
-PKG=$(dirname $(git status --short | grep '_test.go' | grep -v SEED | awk '{print $2}' | head -1))
+PKG=${PKG_OVERRIDE:-$(dirname $(git status --short | grep '_test.go' | grep -v SEED | awk '{print $2}' | head -1))}
 MOD=.; SUB=$PKG; case $PKG in client/*) MOD=client; SUB=${PKG#client/};; esac
 echo "demo=$DEMO pkg=$PKG mod=$MOD"
 git reset -q; git checkout -q -- $(git diff --name-only) 2>/dev/null
